@@ -845,3 +845,47 @@ pub fn canon_val(v: &Val) -> String {
 pub fn canon_args(args: &[Val]) -> String {
     args.iter().map(canon_val).collect::<Vec<_>>().join(";")
 }
+
+/// Handlers that depend on one another across calls: `Gate.Hold` (`&mut self`, so it owns the interface while
+/// it runs) waits until `Key.Release`, a method of another interface at another path, has been called.
+pub type GateState = Arc<(Mutex<bool>, event_listener::Event)>;
+pub fn new_gate() -> GateState {
+    Arc::new((Mutex::new(false), event_listener::Event::new()))
+}
+pub struct Gate {
+    pub state: GateState,
+    pub log: Log,
+    pub w: World,
+}
+#[interface(name = "org.sim.Gate")]
+impl Gate {
+    async fn hold(&mut self) -> u32 {
+        let t = self.w.now();
+        loop {
+            let l = self.state.1.listen();
+            if *self.state.0.lock().unwrap() {
+                break;
+            }
+            l.await;
+        }
+        self.log.lock().unwrap().push(LogEntry { iface: "org.sim.Gate", member: "Hold", args: String::new(), t_start: t, t_end: self.w.now(), instance: 0 });
+        1
+    }
+    fn peek(&self) -> u32 {
+        self.log.lock().unwrap().push(LogEntry { iface: "org.sim.Gate", member: "Peek", args: String::new(), t_start: self.w.now(), t_end: self.w.now(), instance: 0 });
+        2
+    }
+}
+pub struct Key {
+    pub state: GateState,
+    pub log: Log,
+    pub w: World,
+}
+#[interface(name = "org.sim.Key")]
+impl Key {
+    fn release(&self) {
+        self.log.lock().unwrap().push(LogEntry { iface: "org.sim.Key", member: "Release", args: String::new(), t_start: self.w.now(), t_end: self.w.now(), instance: 0 });
+        *self.state.0.lock().unwrap() = true;
+        self.state.1.notify(usize::MAX);
+    }
+}
